@@ -19,7 +19,7 @@ import (
 type SegCase struct {
 	Grid gen.GridSpec  `json:"grid"`
 	Deep int           `json:"deep,omitempty"` // deepest tile matrix id (built-in grids; synthetic grids use their last one)
-	Hot  [][2]int64    `json:"hot"` // pixel indices at the deepest level
+	Hot  [][2]int64    `json:"hot"`            // pixel indices at the deepest level
 	Seg  [2][2]float64 `json:"seg"`
 	Q    int64         `json:"q"`
 	Cls  string        `json:"cls,omitempty"`
@@ -78,6 +78,65 @@ func genC02Seg(t *rapid.T) SegCase {
 	return c
 }
 
+// compareRouting compares what SnapClosestPoints returned for one segment with the routing reference at every level.
+// hotDeep are the occupied pixels at the deepest level. It fills in labels/non-triviality for the deepest level.
+func compareRouting(o *report.Outcome, g *kernel.Grid, deepest uint, hotDeep [][2]int64, seg [2][2]float64, got map[uint][][2]float64, what string) {
+	a := P{X: kernel.ToFixed(seg[0][0]), Y: kernel.ToFixed(seg[0][1])}
+	b := P{X: kernel.ToFixed(seg[1][0]), Y: kernel.ToFixed(seg[1][1])}
+	for l := uint(1); l <= deepest; l++ {
+		lev := kernel.Leveled{G: g, Level: l, Deepest: deepest}
+		hot := kernel.PixSet{}
+		for _, h := range hotDeep {
+			hot.Add(P{X: h[0] >> (deepest - l), Y: h[1] >> (deepest - l)})
+		}
+		want := lev.Route(a, b, hot)
+		if l == deepest {
+			ties := lev.Ties([][]P{{a, b}})
+			if ties.Any() {
+				o.Label("tie")
+			}
+			if len(want) >= 2 {
+				o.Label("meets>=2")
+			}
+			if len(want) == 0 {
+				o.Label("meets none")
+			}
+			if ties.Any() || len(want) >= 2 {
+				o.NonTrivial = true
+			}
+			if len(hotDeep)%7 == 0 && len(hot) <= 40 { // sampled cross validation of the reference itself
+				if slow := lev.RouteSlow(a, b, hot); fmt.Sprint(slow) != fmt.Sprint(want) {
+					panic(fmt.Sprintf("harness defect: references disagree: %v vs %v", want, slow))
+				}
+			}
+		}
+		gl := got[l]
+		gp := make([]P, len(gl))
+		for i, v := range gl {
+			gp[i] = lev.OutPix(v)
+		}
+		if fmt.Sprint(gp) != fmt.Sprint(want) {
+			o.Failf([]string{"routing"}, "%slevel %d: segment %v-%v (fixed %v-%v) with occupied pixels %v: got centres of pixels %v, the segment meets %v (in order of travel)", what, l, seg[0], seg[1], a, b, hot.Sorted(), gp, want)
+			return
+		}
+		for i, v := range gl {
+			ce := lev.Centre(want[i])
+			if v[0] != kernel.FromFixed(ce.X) || v[1] != kernel.FromFixed(ce.Y) {
+				o.Failf([]string{"centre"}, "%slevel %d: returned %v is not the centre %v/%v of pixel %v", what, l, v, kernel.FromFixed(ce.X), kernel.FromFixed(ce.Y), want[i])
+				return
+			}
+		}
+	}
+}
+
+func allLevels(deepest uint) map[uint]any {
+	levels := map[uint]any{}
+	for l := uint(1); l <= deepest; l++ {
+		levels[l] = struct{}{}
+	}
+	return levels
+}
+
 func oracleC02Seg(c SegCase) (o report.Outcome) {
 	g := c.Grid.MustBuild()
 	deepestID := c.deepID()
@@ -102,11 +161,7 @@ func oracleC02Seg(c SegCase) (o report.Outcome) {
 				panic(err)
 			}
 		}
-		levels := map[uint]any{}
-		for l := uint(1); l <= deepest; l++ {
-			levels[l] = struct{}{}
-		}
-		got = ix.SnapClosestPoints(geom.Line{c.Seg[0], c.Seg[1]}, levels, 0)
+		got = ix.SnapClosestPoints(geom.Line{c.Seg[0], c.Seg[1]}, allLevels(deepest), 0)
 	}()
 	if pan != nil {
 		o.Failf([]string{"panic"}, "SnapClosestPoints panicked: %v", pan)
@@ -114,52 +169,256 @@ func oracleC02Seg(c SegCase) (o report.Outcome) {
 	}
 	o.Label("grid=%s", gridClass(c.Grid))
 	o.Label("anchor=%s", c.Cls)
-	for l := uint(1); l <= deepest; l++ {
-		lev := kernel.Leveled{G: g, Level: l, Deepest: deepest}
-		hot := kernel.PixSet{}
-		for _, h := range c.Hot {
-			hot.Add(P{X: h[0] >> (deepest - l), Y: h[1] >> (deepest - l)})
-		}
-		want := lev.Route(a, b, hot)
-		if l == deepest {
-			ties := lev.Ties([][]P{{a, b}})
-			if ties.Any() {
-				o.Label("tie")
-			}
-			if len(want) >= 2 {
-				o.Label("meets>=2")
-			}
-			if len(want) == 0 {
-				o.Label("meets none")
-			}
-			o.NonTrivial = ties.Any() || len(want) >= 2
-			if len(c.Hot)%7 == 0 { // sampled cross validation of the reference itself
-				if slow := lev.RouteSlow(a, b, hot); fmt.Sprint(slow) != fmt.Sprint(want) {
-					panic(fmt.Sprintf("harness defect: references disagree: %v vs %v", want, slow))
-				}
-			}
-		}
-		gl := got[l]
-		gp := make([]P, len(gl))
-		for i, v := range gl {
-			gp[i] = lev.OutPix(v)
-		}
-		if fmt.Sprint(gp) != fmt.Sprint(want) {
-			o.Failf([]string{"routing"}, "level %d: segment %v-%v (fixed %v-%v) with occupied pixels %v: got centres of pixels %v, the segment meets %v (in order of travel)", l, c.Seg[0], c.Seg[1], a, b, hot.Sorted(), gp, want)
-			return o
-		}
-		for i, v := range gl {
-			ce := lev.Centre(want[i])
-			if v[0] != kernel.FromFixed(ce.X) || v[1] != kernel.FromFixed(ce.Y) {
-				o.Failf([]string{"centre"}, "level %d: returned %v is not the centre %v/%v of pixel %v", l, v, kernel.FromFixed(ce.X), kernel.FromFixed(ce.Y), want[i])
-				return o
-			}
-		}
-	}
+	compareRouting(&o, g, deepest, c.Hot, c.Seg, got, "")
 	return o
 }
 
 func TestC02Seg(t *testing.T) { report.Run(t, specC02Seg, genC02Seg, oracleC02Seg) }
+
+// ---------------------------------------------------------------------------------------------------------------
+// (a') a history on ONE index: rounds of "insert some pixels, then snap a segment"; every snap must see all pixels so far
+
+type HistRound struct {
+	Hot [][2]int64    `json:"hot"`
+	Seg [2][2]float64 `json:"seg"`
+}
+
+type HistCase struct {
+	Grid   gen.GridSpec `json:"grid"`
+	Deep   int          `json:"deep,omitempty"`
+	Rounds []HistRound  `json:"rounds"`
+}
+
+var specC02Hist = report.Spec{Property: "C02", Check: "C02Hist",
+	Rule: "stateful: ONE PointIndex, 2-5 rounds of (insert 0-4 occupied pixels of a small window, then SnapClosestPoints of a segment of that window, all levels); after every round the result must be the routing reference for ALL pixels inserted so far. Grids as C02Seg. " +
+		"Non-trivial: a later round inserts a pixel that the segment of that round meets (a stale view of the index would miss it) or a tie. Distinct by case content.",
+	Assumptions: specC02Seg.Assumptions}
+
+func genC02Hist(t *rapid.T) HistCase {
+	seg := genC02Seg(t)
+	c := HistCase{Grid: seg.Grid, Deep: seg.Deep}
+	g := c.Grid.MustBuild()
+	deepest := g.LevelOf(seg.deepID())
+	// the window of the first round is reused: draw further rounds from the same pixels
+	minX, minY, maxX, maxY := seg.Hot[0][0], seg.Hot[0][1], seg.Hot[0][0], seg.Hot[0][1]
+	nIn := min(len(seg.Hot), 10)
+	for _, h := range seg.Hot[:nIn] {
+		minX, minY, maxX, maxY = min(minX, h[0]), min(minY, h[1]), max(maxX, h[0]), max(maxY, h[1])
+	}
+	lev := kernel.Leveled{G: g, Level: deepest, Deepest: deepest}
+	pt := func(label string) [2]float64 {
+		lo, _ := lev.Box(P{X: rapid.Int64Range(minX, maxX).Draw(t, label+"i"), Y: rapid.Int64Range(minY, maxY).Draw(t, label+"j")})
+		s := lev.Span()
+		x, _ := gen.ExactFloat(lo.X + rapid.Int64Range(0, 3).Draw(t, label+"u")*s/4)
+		y, _ := gen.ExactFloat(lo.Y + rapid.Int64Range(0, 3).Draw(t, label+"v")*s/4)
+		return [2]float64{x, y}
+	}
+	c.Rounds = append(c.Rounds, HistRound{Hot: seg.Hot[:max(nIn/2, 1)], Seg: seg.Seg})
+	for r := rapid.IntRange(1, 4).Draw(t, "moreRounds"); r > 0; r-- {
+		var hot [][2]int64
+		for k := rapid.IntRange(0, 4).Draw(t, "nHot"); k > 0; k-- {
+			hot = append(hot, [2]int64{rapid.Int64Range(minX, maxX).Draw(t, "hi"), rapid.Int64Range(minY, maxY).Draw(t, "hj")})
+		}
+		sg := [2][2]float64{pt("a"), pt("b")}
+		if rapid.Bool().Draw(t, "sameSegment") {
+			sg = c.Rounds[len(c.Rounds)-1].Seg
+		}
+		c.Rounds = append(c.Rounds, HistRound{Hot: hot, Seg: sg})
+	}
+	return c
+}
+
+func oracleC02Hist(c HistCase) (o report.Outcome) {
+	g := c.Grid.MustBuild()
+	deepestID := c.Deep
+	if c.Grid.Kind != "builtin" {
+		deepestID = c.Grid.NTM - 1
+	}
+	deepest := g.LevelOf(deepestID)
+	for _, r := range c.Rounds {
+		for _, e := range r.Seg {
+			if !g.Inside(P{X: kernel.ToFixed(e[0]), Y: kernel.ToFixed(e[1])}, deepest) {
+				o.OutOfScope = true
+				return o
+			}
+		}
+	}
+	var pan any
+	func() {
+		defer func() { pan = recover() }()
+		ix, err := pointindex.FromTileMatrixSet(g.TMS, deepestID)
+		if err != nil {
+			panic(err)
+		}
+		var all [][2]int64
+		for ri, r := range c.Rounds {
+			for _, h := range r.Hot {
+				if err := ix.InsertCoord(int(h[0]), int(h[1])); err != nil {
+					panic(err)
+				}
+			}
+			all = append(all, r.Hot...)
+			got := ix.SnapClosestPoints(geom.Line{r.Seg[0], r.Seg[1]}, allLevels(deepest), 0)
+			var sub report.Outcome
+			compareRouting(&sub, g, deepest, all, r.Seg, got, fmt.Sprintf("round %d of %d on one index: ", ri+1, len(c.Rounds)))
+			if sub.Fail != "" {
+				o.Fail, o.Tags = sub.Fail, sub.Tags
+				return
+			}
+			if ri > 0 && sub.NonTrivial && len(r.Hot) > 0 {
+				o.NonTrivial = true
+			}
+		}
+	}()
+	if pan != nil && o.Fail == "" {
+		o.Failf([]string{"panic"}, "PointIndex panicked: %v", pan)
+	}
+	o.Label("rounds=%d", len(c.Rounds))
+	return o
+}
+
+func TestC02Hist(t *testing.T) { report.Run(t, specC02Hist, genC02Hist, oracleC02Hist) }
+
+// ---------------------------------------------------------------------------------------------------------------
+// (a'') long segments: through or just past a pixel corner, from far away (large differences, up to the whole grid)
+
+type LongCase struct {
+	Grid    gen.GridSpec `json:"grid"`
+	Deep    int          `json:"deep,omitempty"`
+	Corner  [2]int64     `json:"corner"` // pixel corner (index of the pixel whose lower left corner it is) at the deepest level
+	Dir     [2]int64     `json:"dir"`    // direction in quarter pixels
+	A       int64        `json:"a"`      // the segment runs from corner - a*dir to corner + b*dir
+	B       int64        `json:"b"`
+	Perturb [2]int64     `json:"perturb"` // quarter pixel offset of the first end point (0,0: exactly through the corner)
+	Extra   [][2]int64   `json:"extra"`   // further occupied pixels
+}
+
+var specC02Long = report.Spec{Property: "C02", Check: "C02Long",
+	Rule: "long segments: a pixel corner C of the deepest level, a direction (dx,dy) in quarter pixels, end points C - a*(dx,dy) and C + b*(dx,dy) with a, b up to thousands (clamped to the grid: on the built-in grids at coarse levels these are edges of hundreds to thousands of km, fixed point differences above 2^53), the first end point optionally moved by a quarter pixel (just past the corner); " +
+		"occupied: a subset of the four pixels around C plus pixels under sampled points of the segment plus random ones. Same oracle as C02Seg (exact at every magnitude: 128 bit products). Non-trivial: tie or >= 2 pixels met.",
+	Assumptions: specC02Seg.Assumptions}
+
+func genC02Long(t *rapid.T) LongCase {
+	c := LongCase{Grid: gen.AnyGridWide(t)}
+	g := c.Grid.MustBuild()
+	if c.Grid.Kind == "builtin" {
+		c.Deep = rapid.IntRange(0, min(g.MaxID(), maxAddressableID(g), 12)).Draw(t, "deepestID")
+	}
+	deepest := g.LevelOf(c.deepOf())
+	size := int64(1) << deepest
+	c.Corner = [2]int64{rapid.Int64Range(1, size-1).Draw(t, "cx"), rapid.Int64Range(1, size-1).Draw(t, "cy")}
+	for c.Dir == [2]int64{0, 0} {
+		c.Dir = [2]int64{rapid.Int64Range(-9, 9).Draw(t, "dx"), rapid.Int64Range(-9, 9).Draw(t, "dy")}
+	}
+	c.A = rapid.Int64Range(1, 4*size).Draw(t, "a")
+	c.B = rapid.Int64Range(0, 4*size).Draw(t, "b")
+	if rapid.IntRange(0, 2).Draw(t, "perturb") == 0 {
+		c.Perturb = [2]int64{rapid.Int64Range(-1, 1).Draw(t, "px"), rapid.Int64Range(-1, 1).Draw(t, "py")}
+	}
+	for k := rapid.IntRange(0, 4).Draw(t, "around"); k > 0; k-- {
+		c.Extra = append(c.Extra, [2]int64{c.Corner[0] - rapid.Int64Range(0, 1).Draw(t, "ox"), c.Corner[1] - rapid.Int64Range(0, 1).Draw(t, "oy")})
+	}
+	for k := rapid.IntRange(0, 3).Draw(t, "random"); k > 0; k-- {
+		c.Extra = append(c.Extra, [2]int64{rapid.Int64Range(0, size-1).Draw(t, "ri"), rapid.Int64Range(0, size-1).Draw(t, "rj")})
+	}
+	c.Extra = append(c.Extra, [2]int64{-1, int64(rapid.IntRange(1, 6).Draw(t, "alongSamples"))}) // marker: sample pixels along the segment
+	return c
+}
+
+func (c LongCase) deepOf() int {
+	if c.Grid.Kind == "builtin" {
+		return c.Deep
+	}
+	return c.Grid.NTM - 1
+}
+
+func oracleC02Long(c LongCase) (o report.Outcome) {
+	g := c.Grid.MustBuild()
+	deepestID := c.deepOf()
+	deepest := g.LevelOf(deepestID)
+	lev := kernel.Leveled{G: g, Level: deepest, Deepest: deepest}
+	size := int64(1) << deepest
+	// clamp a and b so that both end points stay inside the grid (quarter pixel units relative to the grid's corner)
+	cq := [2]int64{c.Corner[0] * 4, c.Corner[1] * 4}
+	fit := func(m int64, sign int64) int64 {
+		for _, ax := range []int{0, 1} {
+			d := sign * c.Dir[ax]
+			if d > 0 {
+				m = min(m, (4*size-2-cq[ax])/d)
+			} else if d < 0 {
+				m = min(m, (cq[ax]-1)/(-d))
+			}
+		}
+		return max(m, 0)
+	}
+	a, b := fit(c.A, -1), fit(c.B, 1)
+	s := lev.Span()
+	toFloat := func(qx, qy int64) [2]float64 {
+		x, _ := gen.ExactFloat(g.MinX + (qx/4)*s + (qx%4)*s/4)
+		y, _ := gen.ExactFloat(g.MinY + (qy/4)*s + (qy%4)*s/4)
+		return [2]float64{x, y}
+	}
+	p0 := [2]int64{cq[0] - a*c.Dir[0] + c.Perturb[0], cq[1] - a*c.Dir[1] + c.Perturb[1]}
+	p1 := [2]int64{cq[0] + b*c.Dir[0], cq[1] + b*c.Dir[1]}
+	for _, p := range [][2]int64{p0, p1} {
+		if p[0] < 0 || p[1] < 0 || p[0] >= 4*size || p[1] >= 4*size {
+			o.OutOfScope = true
+			return o
+		}
+	}
+	seg := [2][2]float64{toFloat(p0[0], p0[1]), toFloat(p1[0], p1[1])}
+	fa := P{X: kernel.ToFixed(seg[0][0]), Y: kernel.ToFixed(seg[0][1])}
+	fb := P{X: kernel.ToFixed(seg[1][0]), Y: kernel.ToFixed(seg[1][1])}
+	if !g.Inside(fa, deepest) || !g.Inside(fb, deepest) {
+		o.OutOfScope = true
+		return o
+	}
+	var hot [][2]int64
+	for _, e := range c.Extra {
+		if e[0] == -1 { // pixels under evenly spaced points of the segment
+			for k := int64(1); k <= e[1]; k++ {
+				px := lev.Pixel(P{X: fa.X + (fb.X-fa.X)/(e[1]+1)*k, Y: fa.Y + (fb.Y-fa.Y)/(e[1]+1)*k})
+				if px.X >= 0 && px.Y >= 0 && px.X < size && px.Y < size {
+					hot = append(hot, [2]int64{px.X, px.Y})
+				}
+			}
+			continue
+		}
+		if e[0] >= 0 && e[1] >= 0 && e[0] < size && e[1] < size {
+			hot = append(hot, e)
+		}
+	}
+	if len(hot) == 0 {
+		hot = append(hot, [2]int64{min(c.Corner[0], size-1), min(c.Corner[1], size-1)})
+	}
+	var got map[uint][][2]float64
+	var pan any
+	func() {
+		defer func() { pan = recover() }()
+		ix, err := pointindex.FromTileMatrixSet(g.TMS, deepestID)
+		if err != nil {
+			panic(err)
+		}
+		for _, h := range hot {
+			if err := ix.InsertCoord(int(h[0]), int(h[1])); err != nil {
+				panic(err)
+			}
+		}
+		got = ix.SnapClosestPoints(geom.Line{seg[0], seg[1]}, allLevels(deepest), 0)
+	}()
+	if pan != nil {
+		o.Failf([]string{"panic"}, "SnapClosestPoints panicked: %v", pan)
+		return o
+	}
+	o.Label("grid=%s", gridClass(c.Grid))
+	if d := max(abs(fb.X-fa.X), abs(fb.Y-fa.Y)); d > 1<<53 {
+		o.Label("difference above 2^53 fixed point units")
+	}
+	compareRouting(&o, g, deepest, hot, seg, got, "")
+	return o
+}
+
+func TestC02Long(t *testing.T) { report.Run(t, specC02Long, genC02Long, oracleC02Long) }
 
 // ---------------------------------------------------------------------------------------------------------------
 // (b) polygon level: non collapsing polygons come back as exactly the routed boundary
